@@ -522,6 +522,22 @@ def rule_P1_P2(ctx, cname, writer, reader, obj, rid1='P1', rid2='P2', reader_onl
                        r.key, unparse(ws[0].guards[-1][0]),
                        'under a guard' if guarded else 'unconditionally (KeyError for objects '
                        'written without it)'))
+        # a read that sits under a probe of its own key sits on the branch where the key EXISTS
+        if r.kind != 'probe':
+            from .cfg import edge_facts
+            for test, pol in r.guards:
+                for atom, _, truth in edge_facts(test, pol):
+                    if isinstance(atom, ast.Compare) and len(atom.ops) == 1 and \
+                            isinstance(atom.ops[0], (ast.In, ast.NotIn)) and \
+                            key_template(atom.left)[0] == r.key:
+                        present = truth if isinstance(atom.ops[0], ast.In) else (not truth)
+                        ctx.ob(rid1, '%s:read-where-present(%s)' % (reader.qualname, r.key),
+                               present, r.where,
+                               'key %r is read on the branch where the probe found it' % r.key
+                               if present else
+                               'key %r is read on the branch where `%s` says it is ABSENT: a '
+                               'stored member is silently not restored (and a missing one '
+                               'raises)' % (r.key, unparse(atom)[:50]))
         # P2
         if r.attr is not None:
             for w in ws:
